@@ -7,7 +7,7 @@ P=/verif/seeded/$NAME/patch.diff
 [ -f "$P" ] || P=$NAME   # also accept a path to a patch
 cd /repo || exit 2
 if [ -n "$(git status --porcelain --untracked-files=no)" ]; then echo "/repo not clean"; exit 2; fi
-trap 'git -C /repo checkout -q -- . ; git -C /repo status --porcelain --untracked-files=no | head -3' EXIT
+trap 'git -C /repo apply -R "$P" 2>/dev/null; git -C /repo checkout -q -- . ; git -C /repo status --porcelain | head -3' EXIT
 git apply "$P" || { echo "patch does not apply to /repo HEAD"; exit 2; }
 for PR in ${PROPS//,/ }; do
   OUT=$(cd /verif && ./run.sh $PR $TIER 2>&1); RC=$?
